@@ -10,7 +10,8 @@ import threading
 
 
 class Scheduler:
-    def __init__(self, ntasks, schedule=None, watchdog=60.0):
+    def __init__(self, ntasks, schedule=None, watchdog=60.0, policy=None):
+        self.policy = policy   # callable(enabled, last, pending-of-last) -> task, used beyond the fixed schedule prefix
         self.n = ntasks
         self.sems = [threading.Semaphore(0) for _ in range(ntasks)]
         self.main = threading.Semaphore(0)
@@ -61,6 +62,10 @@ class Scheduler:
             enabled = [i for i in range(self.n) if not self.done[i]]
             if step < len(self.schedule) and self.schedule[step] in enabled:
                 choice = self.schedule[step]
+            elif self.policy is not None:
+                choice = self.policy(enabled, last, self.pending[last] if last is not None else None)
+                if choice not in enabled:
+                    choice = last if last in enabled else enabled[0]
             elif last is not None and last in enabled:
                 choice = last            # default policy: no preemption
             else:
